@@ -31,12 +31,13 @@ def run(tier):
         cov["stackings_reported"] = sum(len(c["stacks"]) for c in cases)
         cov["structures"] = sorted({c["recipe"]["file"] for c in cases})
         cov["exhaustive"] = False
-        cov["rule"] = ("corpus structures from tests/ (quick: %d files; thorough: all non-empty files, reader models 1-3), "
-                       "each as read, rigidly moved, jittered (sigma 0.02/0.1/0.3 A), thinned of residues / atoms, squashed, residue order shuffled, "
-                       "and as a two-model structure; plus threshold probes (two residues of a corpus structure, one moved rigidly so "
-                       "that one decision quantity sits at its threshold +- delta); every residue pair with centroid distance <= 7 A is measured. "
-                       "A case (structure variant) is non-trivial when the code reports >= 1 stacking AND the spec finds "
-                       ">= 1 candidate that certainly qualifies; distinct = distinct recipe ids." % len(cov["structures"]))
+        cov["rule"] = ("corpus structures from tests/ (%d files; thorough: all non-empty files, reader models 1-3), each as read, "
+                       "rigidly moved, jittered (sigma 0.02/0.1/0.3 A), thinned of residues / atoms, squashed, residue order "
+                       "shuffled, and as a two-model structure; plus threshold probes (two stacked residues of a corpus "
+                       "structure, one moved rigidly so that the centroid distance / normal angle / offset angle sits at "
+                       "its threshold +- delta). Every residue pair with centroid distance <= 7 A is measured. A case "
+                       "(structure variant) is non-trivial when the code reports >= 1 stacking AND the spec finds >= 1 "
+                       "candidate that certainly qualifies; distinct = distinct recipe ids." % len(cov["structures"]))
         cov["distinct_nontrivial"] = len({c["id"] for c in cases if c["stacks"] and info.get(c["id"], [0, 0, 0])[1] > 0})
         big = [c for c in cases if c["stacks"]]
         if big:
